@@ -112,6 +112,31 @@ def w_local(exes, k, prefix_idx):
     return part
 
 
+ATOK = [b"a", b"#", b'"', b"\\", b".", b" ", b"\t", b"\r", b"\n", b"\x01", b"("]
+
+
+def w_ascii_as_5322(exe, build_name, k, prefix_idx):
+    """Inside a build with RFC6531_FOLLOW_RFC5322 (and without RFC6531_FOLLOW_RFC20): is_6531_local must decide every
+    pure-ASCII local part exactly as is_5322_local of the same build does (the packed verdict strings are compared whole)."""
+    part = {"counters": collections.Counter(), "viol": [], "samples": [], "distinct": 0, "sets": {}}
+    prefix = b"".join(ATOK[i] for i in prefix_idx)
+    toks = ",".join(t.hex() for t in ATOK)
+    res = {}
+    for fn in ("l6531", "l5322"):
+        res[fn] = driver.run_lines(exe, ["N %s %d %s %s -" % (fn, k, toks, driver.hx(prefix))], raw=True)
+    a, b = gen.parse_packed(res["l6531"]), gen.parse_packed(res["l5322"])
+    part["counters"]["edge-comparisons"] += len(a)
+    part["counters"]["ascii-as-5322.strings"] += len(a)
+    if [x == 0 for x in a] != [y == 0 for y in b]:
+        strings = [prefix + s for s in gen.enum_strings(ATOK, k)]
+        for i, (x, y) in enumerate(zip(a, b)):
+            if (x == 0) != (y == 0) and strings[i]:
+                part["viol"].append(("%s/pure-ascii-not-judged-as-5322/deep" % O5322, {"local_part": core.b2s(strings[i]), "build": build_name},
+                                     {"l6531": x, "l5322": y}))
+    part["distinct"] = len(a)
+    return part
+
+
 def w_domain(exes, k, prefix_idx):
     part = {"counters": collections.Counter(), "viol": [], "samples": [], "distinct": 0, "sets": {}}
     prefix = b"".join(DTOK[i] for i in prefix_idx)
@@ -253,6 +278,10 @@ def main(tier, seed):
     jobs.append((w_local, (exes, 1, ())))
     for p in itertools.product(range(len(LTOK)), repeat=2):
         jobs.append((w_local, (exes, kl - 2, p)))
+    ka = 6 if tier == "quick" else 7
+    for c in (frozenset([O5322]), frozenset([O5322, OUS])):
+        for p in itertools.product(range(len(ATOK)), repeat=2):
+            jobs.append((w_ascii_as_5322, (exes[c], vname(c), ka - 2, p)))
     kd = 6 if tier == "quick" else 7
     jobs.append((w_domain, (exes, 1, ())))
     for p in itertools.product(range(len(DTOK)), repeat=2):
